@@ -1,8 +1,5 @@
 #!/bin/sh
+# thorough tier of every property on the clean tree, 4 at a time; one line per property
 cd /verif
-for p in C01 C02 C03 C04 C05 C06 C07 C08 C09 C10 C11 C12 C13 C14 C15 C16 C17 C18 C19 C20; do
-  s=$(date +%s)
-  out=$(./check $p --tier thorough 2>&1 | grep -v '^KNOWN-FINDING' | tail -2 | tr '\n' ' ')
-  e=$(date +%s)
-  echo "$p wall=$((e-s))s :: $out"
-done
+PROPS="${*:-C01 C02 C03 C04 C05 C06 C07 C08 C09 C10 C11 C12 C13 C14 C15 C16 C17 C18 C19 C20}"
+for p in $PROPS; do echo $p; done | xargs -P 4 -I{} sh -c 's=$(date +%s); out=$(./check {} --tier thorough 2>&1); rc=$?; n=$(echo "$out" | grep -c "^VIOLATION"); e=$(date +%s); echo "{} exit=$rc violations=$n wall=$((e-s))s :: $(echo "$out" | grep -v "^KNOWN-FINDING" | tail -1)"'
